@@ -17,6 +17,8 @@ DECIDED = ('(a) the dictionaries behind response headers are written only inside
            'through encode(utf8).decode(latin1), withholds the per-status blacklist (204: Content-Type; 304: the RFC 7232 '
            'entity headers) including the default Content-Type, and wsgi hands response.headerlist itself to '
            'start_response.')
+DECIDED_MORE = ('Also: the stored status code is an int on every path; no equality-keyed memo on the guard; constructor values reach the store through append only.')
+DECIDED = DECIDED + ' ' + DECIDED_MORE
 NOT_DECIDED = ('"decodes back to the original text": codec semantics of utf8/latin1 (assumed injective); header *names*; '
                'HeaderDict.update and list-valued setdefault are not single-value setters in the statement (reported as notes).')
 ASSUMPTIONS = ["s.encode('utf8').decode('latin1') is total and injective", 'str(x) of int/float/bool/None contains no control characters']
